@@ -51,6 +51,7 @@ type VC struct {
 	inputs   []WatchTerm
 	assumed  map[string]bool // assumptions recorded for evidence
 	nosafe   bool
+	entryAlloc Term
 	nondet   bool // the VC abstracts (loop havoc, contract application, effect-free results): models need not be real executions
 	// for replay
 	entryState  *State
@@ -219,6 +220,23 @@ func (vc *VC) baseHeap(base string, v Sort) Term {
 	if !vc.heapInit[name] {
 		vc.heapInit[name] = true
 		vc.emitf("(declare-const %s %s)\n", name, heapSort(v))
+		// well-formed input heap: references stored in memory that exists at entry point to
+		// objects that exist at entry (needed for heap reads made by specifications, which carry
+		// no per-load typing assumption)
+		if base == "0" && vc.entryAlloc.Valid() {
+			var ridOf string
+			switch v {
+			case SRef:
+				ridOf = fmt.Sprintf("(rid (select %s q!r))", name)
+			case SSlice:
+				ridOf = fmt.Sprintf("(rid (sbase (select %s q!r)))", name)
+			case SIface:
+				ridOf = fmt.Sprintf("(rid (iref (select %s q!r)))", name)
+			}
+			if ridOf != "" {
+				vc.axioms = append(vc.axioms, fmt.Sprintf("(forall ((q!r Ref)) (! (< %s %s) :pattern ((select %s q!r))))", ridOf, vc.entryAlloc.S, name))
+			}
+		}
 	}
 	return Term{name, heapSort(v)}
 }
